@@ -136,6 +136,20 @@ func (b *byzActor) voteAt(h *Node, rs *cstypes.RoundState, idx int) {
 			if v := b.signVote(H, r, typ, id, size, idx); v != nil {
 				cl.c.Fault("byz-equivocating-vote")
 				cl.send(b.n.idx, h.idx, &cs.VoteMessage{Vote: v}, "byz-vote")
+				// the same signed vote under the other validators' indices: the index
+				// is not covered by the signature, so only the receiver's comparison
+				// of index and address keeps one validator from voting as all of them
+				if cl.sched.Bool(1, 3) {
+					for j := 0; j < size; j++ {
+						if j == idx {
+							continue
+						}
+						sp := *v
+						sp.ValidatorIndex = j
+						cl.c.Fault("byz-vote-under-foreign-index")
+						cl.send(b.n.idx, h.idx, &cs.VoteMessage{Vote: &sp}, "byz-vote-foreign-index")
+					}
+				}
 				// a (possibly false) majority claim for that block makes the node
 				// track the conflicting vote per block; re-deliveries of it must
 				// still count the validator once
